@@ -154,8 +154,16 @@ theorem parseArea_encode (v : Variant) (k : InputKind) (kind : AreaKind) (a : In
   have hd0 : ∃ t, d = 1 :: t := by rw [← hd, encodeArea_shape]; exact ⟨_, rfl⟩
   obtain ⟨t, ht⟩ := hd0
   subst ht
+  have hlenchk : (!v.areaLenLax && (a.total / 8 * 8 == 0 || decide ((1 :: t).length < a.total / 8 * 8))) = false := by
+    have hp := a.total_pos
+    have hl : a.total ≤ (1 :: t).length := by
+      rw [← hd, List.length_append, encodeArea_length]; omega
+    rw [a.total_div]
+    have e1 : (a.total == 0) = false := by simp; omega
+    have e2 : decide ((1 :: t).length < a.total) = false := by simp; omega
+    rw [e1, e2]; simp
   simp only [parseArea]
-  simp only [h1, hsum, hb2, hfix, hdrop, hpf, hcf, Outcome.bind_ok]
+  simp only [h1, hlenchk, hsum, hb2, hfix, hdrop, hpf, hcf, Outcome.bind_ok]
   simp [viewArea, a.total_div]
 
 end PyIpmi.Fru
